@@ -11,7 +11,25 @@ mod scenarios;
 
 fn gen_cases(prop: &str, rng: &mut Rng, tier: &str, outdir: &str) -> Vec<Line> {
   let thorough = tier == "thorough";
-  let mut v = if prop == "C37" { scenarios::events() } else { scenarios::all() };
+  let scripted = std::panic::catch_unwind(|| if prop == "C37" { scenarios::events() } else { scenarios::all() });
+  let mut v = match scripted {
+    Ok(v) => v,
+    Err(e) => {
+      let msg = e.downcast_ref::<String>().cloned().or_else(|| e.downcast_ref::<&str>().map(|s| s.to_string())).unwrap_or_default();
+      eprintln!("scripted scenario panicked: {msg}");
+      std::process::exit(3);
+    }
+  };
+  if prop == "C11" {
+    match std::panic::catch_unwind(scenarios::multi_commit_edges) {
+      Ok(l) => v.push(l),
+      Err(e) => {
+        let msg = e.downcast_ref::<String>().cloned().or_else(|| e.downcast_ref::<&str>().map(|s| s.to_string())).unwrap_or_default();
+        eprintln!("scenario multi_commit_edges panicked: {msg}");
+        std::process::exit(3);
+      }
+    }
+  }
   let mut feats = gen::Features::new();
   // (profile, quick count, thorough count)
   let plan: Vec<(gen::Profile, usize, usize)> = match prop {
@@ -22,7 +40,7 @@ fn gen_cases(prop: &str, rng: &mut Rng, tier: &str, outdir: &str) -> Vec<Line> {
       vec![(gen::P_MINT, 60, 300), (gen::P_SUPPLY, 10, 50)]
     }
     "C37" => vec![(gen::P_EVENTS, 90, 450)],
-    "C11" => vec![(gen::P_ETCH, 85, 550), (gen::P_SUPPLY, 15, 100)],
+    "C11" => vec![(gen::P_ETCH, 60, 450), (gen::P_SUPPLY, 10, 80)],
     _ => vec![],
   };
   for (p, q, t) in plan {
